@@ -271,6 +271,11 @@ def run(tier: str) -> int:
         n = int(rs.randint(2, 13))
         m = int(rs.randint(1, n + 1))
         I = [int(i) for i in rs.permutation(n)[:m]]
+        if k % 3 == 0:
+            # the same atoms addressed from the end (negative indices are ordinary indices)
+            I = [i - n if rs.rand() < 0.6 else i for i in I]
+            if k % 6 == 0:
+                I = I[:1]
         atoms = rich_atoms(n, rs, ident_tags=False)
         orig = atoms.copy()
         rep.count(("rand-re", k))
@@ -282,7 +287,7 @@ def run(tier: str) -> int:
         except Exception as ex:  # noqa: BLE001
             err = f"raised {type(ex).__name__}: {ex}"
         if err:
-            rep.violation(f"reinsert:random:{'sorted' if I == sorted(I) else 'unsorted'}", f"{err} (n={n} indices={I})", {"n": n, "I": I})
+            rep.violation(f"reinsert:random:{'negative-index' if min(I) < 0 else ('sorted' if I == sorted(I) else 'unsorted')}", f"{err} (n={n} indices={I})", {"n": n, "I": I})
         # scalar cutoff on a random geometry, independent union-find over minimum-image distances
         n = int(rs.randint(1, 11))
         L = 6.0
